@@ -1051,7 +1051,7 @@ theorem filter_key_eq {starts : List (Nat × Nat)} {s : Nat} (hk : (starts.map (
   induction starts with
   | nil => rfl
   | cons e t ih =>
-    have hk' := List.nodup_cons.mp (by simpa using hk)
+    have hk' : e.1 ∉ t.map (·.1) ∧ (t.map (·.1)).Nodup := List.nodup_cons.mp hk
     by_cases he : e.1 = s
     · have hnone : t.filter (·.1 == s) = [] := by
         apply List.filter_eq_nil_iff.mpr
@@ -1059,7 +1059,7 @@ theorem filter_key_eq {starts : List (Nat × Nat)} {s : Nat} (hk : (starts.map (
         have : x.1 = s := by simpa using hxs
         apply hk'.1
         rw [he, ← this]
-        exact List.mem_map_of_mem hx
+        exact List.mem_map_of_mem (f := (·.1)) hx
       simp [List.filter_cons, List.find?_cons, he, hnone]
     · have hb : (e.1 == s) = false := by simpa using he
       simp only [List.filter_cons, List.find?_cons, hb]
@@ -1137,5 +1137,815 @@ theorem jj_step {p p' : P} {L L' : Nat → Nat} {s : Nat} {b : List Nat} (j : JJ
   unfold heads
   rw [List.append_assoc]
   exact ((regs_split p'.starts L' s hkeys).append_left _).symm
+
+end CfbVerif.Phys
+
+/-! ## chains keep their first sector; a chain read from the FAT begins at its start sector -/
+namespace CfbVerif.Phys
+open CfbVerif.Raw
+
+theorem growOne_prefix {kind : Init} {p p' : P} {ids ids' : List Nat} (h : growOne kind p ids = .ok (p', ids')) :
+    ∃ t, ids' = ids ++ t := by
+  unfold growOne at h
+  split at h
+  · split at h
+    · cases h; exact ⟨_, rfl⟩
+    · cases h
+    · cases h
+    · cases h
+  · split at h
+    · cases h; exact ⟨_, rfl⟩
+    · cases h
+    · cases h
+    · cases h
+
+theorem chainWrite_prefix (kind : Init) (fuel : Nat) : ∀ {p p' : P} {ids ids' : List Nat} {off : Nat} {bs : Bytes},
+    chainWrite kind fuel p ids off bs = .ok (p', ids') → ∃ t, ids' = ids ++ t := by
+  induction fuel with
+  | zero => intro p p' ids ids' off bs h; simp [chainWrite] at h
+  | succ fuel ih =>
+    intro p p' ids ids' off bs h
+    unfold chainWrite at h
+    split at h
+    · cases h; exact ⟨[], by simp⟩
+    · dsimp only at h
+      split at h
+      · rename_i p1 ids1 hgrow
+        have g1 : ∃ t, ids1 = ids ++ t := by
+          split at hgrow
+          · exact growOne_prefix hgrow
+          · cases hgrow; exact ⟨[], by simp⟩
+        split at h
+        · cases h
+        · split at h
+          · obtain ⟨t1, e1⟩ := g1
+            obtain ⟨t2, e2⟩ := ih h
+            exact ⟨t1 ++ t2, by rw [e2, e1, List.append_assoc]⟩
+          · cases h
+          · cases h
+          · cases h
+      · cases h
+      · cases h
+      · cases h
+
+theorem chainGrow_prefix (kind : Init) (fuel : Nat) : ∀ {p p' : P} {ids ids' : List Nat} {target : Nat},
+    chainGrow kind fuel p ids target = .ok (p', ids') → ∃ t, ids' = ids ++ t := by
+  induction fuel with
+  | zero => intro p p' ids ids' target h; simp [chainGrow] at h
+  | succ fuel ih =>
+    intro p p' ids ids' target h
+    unfold chainGrow at h
+    split at h
+    · cases h; exact ⟨[], by simp⟩
+    · split at h
+      · rename_i p1 ids1 hg
+        obtain ⟨t1, e1⟩ := growOne_prefix hg
+        obtain ⟨t2, e2⟩ := ih h
+        exact ⟨t1 ++ t2, by rw [e2, e1, List.append_assoc]⟩
+      · cases h
+      · cases h
+      · cases h
+
+theorem chainSetLen_prefix {p p' : P} {ids ids' : List Nat} {kind : Init} {n : Nat}
+    (h : chainSetLen p ids kind n = .ok (p', ids')) : ∃ t, ids' = ids ++ t := by
+  unfold chainSetLen at h
+  dsimp only at h
+  split at h
+  · split at h
+    · obtain ⟨q, hf, h⟩ := obind_ok h
+      cases h; exact ⟨[], by simp⟩
+    · cases h; exact ⟨[], by simp⟩
+  · split at h
+    · split at h
+      · split at h
+        · obtain ⟨q, hf, h⟩ := obind_ok h
+          cases h; exact ⟨[], by simp⟩
+        · cases h
+      · cases h; exact ⟨[], by simp⟩
+    · exact chainGrow_prefix _ _ h
+
+theorem hdl_of_prefix {ids ids' : List Nat} (hne : ids ≠ []) (h : ∃ t, ids' = ids ++ t) : hdl ids' = hdl ids := by
+  obtain ⟨t, e⟩ := h
+  rw [e, hdl_append hne]
+
+theorem chainLoop_head (fat : Array Nat) (first : Nat) (fuel : Nat) : ∀ {cur : Nat} {acc ids : List Nat},
+    chainLoop fat first fuel cur acc = .ok ids → ∃ t, ids = acc.reverse ++ t ∧ (cur ≠ END → t.head? = some cur) := by
+  induction fuel with
+  | zero => intro cur acc ids h; simp [chainLoop] at h
+  | succ fuel ih =>
+    intro cur acc ids h
+    unfold chainLoop at h
+    split at h
+    · rename_i he
+      cases h
+      exact ⟨[], by simp, fun hne => absurd he hne⟩
+    · split at h
+      · split at h
+        · cases h
+        · obtain ⟨t, e, _⟩ := ih h
+          refine ⟨cur :: t, by rw [e]; simp, fun _ => rfl⟩
+      · cases h
+
+/-- the sector list of the chain starting at `start` begins with `start` -/
+theorem chainIds_head {p : P} {start : Nat} {ids : List Nat} (h : chainIds p start = .ok ids) (hne : start ≠ END) :
+    hdl ids = [start] := by
+  unfold chainIds chainFrom at h
+  obtain ⟨t, e, ht⟩ := chainLoop_head _ _ _ h
+  simp only [List.reverse_nil, List.nil_append] at e
+  subst e
+  unfold hdl
+  rw [ht hne]; rfl
+
+end CfbVerif.Phys
+
+/-! ## the stream operations -/
+namespace CfbVerif.Phys
+open CfbVerif.Raw
+
+def upd (L : Nat → Nat) (s v : Nat) : Nat → Nat := fun t => if t = s then v else L t
+
+theorem upd_other (L : Nat → Nat) (s v : Nat) : ∀ t, t ≠ s → upd L s v t = L t := by
+  intro t ht; simp [upd, ht]
+
+theorem upd_self (L : Nat → Nat) (s v : Nat) : upd L s v s = v := by simp [upd]
+
+theorem startIn_setStart (p : P) (s st : Nat) : startIn (setStart p s st).starts s = st := by
+  simp [startIn, setStart]
+
+theorem others_idem (starts : List (Nat × Nat)) (s : Nat) : others (others starts s) s = others starts s := by
+  unfold others; rw [List.filter_filter]; congr 1; funext e; simp
+
+theorem others_setStart (p : P) (s st : Nat) : others (setStart p s st).starts s = others p.starts s := by
+  show others ((s, st) :: others p.starts s) s = others p.starts s
+  unfold others
+  rw [List.filter_cons]
+  simp only [bne_self_eq_false, Bool.false_eq_true, ↓reduceIte]
+  exact others_idem p.starts s
+
+theorem keys_others {starts : List (Nat × Nat)} (s : Nat) (hk : (starts.map (·.1)).Nodup) :
+    ((others starts s).map (·.1)).Nodup ∧ s ∉ (others starts s).map (·.1) := by
+  refine ⟨hk.sublist ((List.filter_sublist).map _), ?_⟩
+  intro hm
+  obtain ⟨e, he, hes⟩ := List.mem_map.mp hm
+  have := (List.mem_filter.mp he).2
+  simp [hes] at this
+
+theorem keys_setStart {p : P} (s st : Nat) (hk : (p.starts.map (·.1)).Nodup) :
+    ((setStart p s st).starts.map (·.1)).Nodup := by
+  have := keys_others s hk
+  show (((s, st) :: others p.starts s).map (·.1)).Nodup
+  rw [List.map_cons]
+  exact List.nodup_cons.mpr ⟨this.2, this.1⟩
+
+theorem ownOf_sublist_hd1 (starts : List (Nat × Nat)) (L : Nat → Nat) (s : Nat) :
+    (ownOf starts L s).Sublist (hd1 (startIn starts s)) := by
+  unfold ownOf hd1
+  by_cases h1 : CUTOFF ≤ L s <;> by_cases h2 : startIn starts s = END <;> simp [h1, h2]
+
+theorem hd1_head_sublist (ids : List Nat) : (hd1 (ids.head?.getD END)).Sublist (hdl ids) := by
+  cases ids with
+  | nil => simp [hd1, hdl]
+  | cons a r =>
+    simp only [List.head?_cons, Option.getD_some, hdl, Option.toList]
+    unfold hd1
+    split
+    · exact List.nil_sublist _
+    · exact List.Sublist.refl _
+
+/-- the new owner list of slot `s` after `setStart … (ids.head?.getD END)` sits inside the head of `ids` -/
+theorem ownOf_setStart_sublist (p : P) (L : Nat → Nat) (s : Nat) (ids : List Nat) :
+    (ownOf (setStart p s (ids.head?.getD END)).starts L s).Sublist (hdl ids) := by
+  have h1 := ownOf_sublist_hd1 (setStart p s (ids.head?.getD END)).starts L s
+  rw [startIn_setStart] at h1
+  exact h1.trans (hd1_head_sublist ids)
+
+theorem ownOf_small (starts : List (Nat × Nat)) {L : Nat → Nat} {s : Nat} (h : L s < CUTOFF) : ownOf starts L s = [] := by
+  unfold ownOf; rw [if_neg]; intro hc; omega
+
+theorem ownOf_noStart {starts : List (Nat × Nat)} (L : Nat → Nat) {s : Nat} (h : startIn starts s = END) :
+    ownOf starts L s = [] := by
+  unfold ownOf; rw [if_neg]; intro hc; exact hc.2 h
+
+theorem ownOf_reg {starts : List (Nat × Nat)} {L : Nat → Nat} {s : Nat} (h1 : CUTOFF ≤ L s) (h2 : startIn starts s ≠ END) :
+    ownOf starts L s = [startIn starts s] := by
+  unfold ownOf; rw [if_pos ⟨h1, h2⟩]
+
+theorem cont_setStart (p : P) (s st : Nat) : cont (setStart p s st) = cont p := rfl
+
+/-- a `KK` step followed by `setStart`, as a `Keeps` in the shape `jj_step` wants -/
+theorem keeps_kk_setStart {p q : P} (k : KK p q) (s st : Nat) :
+    Keeps p (setStart q s st) (cont p ++ []) (cont (setStart q s st) ++ []) := by
+  rw [List.append_nil, List.append_nil, cont_setStart]
+  exact k.k.trans (Keeps.of_same (same_setStart _ _ _) _)
+
+theorem jj_writeData {p p' : P} {L : Nat → Nat} {slot off n : Nat} {buf : Bytes}
+    (h : writeData p slot (L slot) off buf = .ok (p', n)) (j : JJ p L) (hb : p'.fat.size ≤ MAXREG + 1) :
+    JJ p' (upd L slot n) := by
+  unfold writeData at h
+  dsimp only [bind, pure] at h
+  split at h
+  · rename_i hend
+    have hown : ownOf p.starts L slot = [] := ownOf_noStart L hend
+    split at h
+    · cases h
+    · split at h
+      · rename_i hsmall
+        obtain ⟨⟨q, ids⟩, hw, h⟩ := obind_ok h
+        cases h
+        have kk := kk_miniChainWrite _ hw
+        refine jj_step (b := []) j (upd_other _ _ _) (by rw [hown]; exact keeps_kk_setStart kk _ _) ?_ ?_ ?_ hb
+        · rw [ownOf_small _ (by rw [upd_self]; exact hsmall)]; exact List.Sublist.refl _
+        · rw [others_setStart, kk.starts]
+        · exact keys_setStart _ _ (by rw [kk.starts]; exact j.keys)
+      · obtain ⟨⟨q, ids⟩, hw, h⟩ := obind_ok h
+        cases h
+        have k := keeps_chainWrite _ _ hw
+        refine jj_step (b := hdl ids) j (upd_other _ _ _) ?_ (ownOf_setStart_sublist _ _ _ _) ?_ ?_ hb
+        · rw [hown, cont_setStart, cont_of_sf k.2]
+          have := (k.1.frame (cont p)).trans (Keeps.of_same (same_setStart q slot (ids.head?.getD END)) _)
+          simpa [hdl] using this
+        · rw [others_setStart, k.2.2.2.2]
+        · exact keys_setStart _ _ (by rw [k.2.2.2.2]; exact j.keys)
+  · rename_i hstart
+    split at h
+    · rename_i hsmallOld
+      have hown : ownOf p.starts L slot = [] := ownOf_small _ hsmallOld
+      split at h
+      · rename_i hsmall
+        obtain ⟨ids, hi, h⟩ := obind_ok h
+        split at h
+        · cases h
+        · obtain ⟨⟨q, ids'⟩, hw, h⟩ := obind_ok h
+          cases h
+          have kk := kk_miniChainWrite _ hw
+          refine jj_step (b := []) j (upd_other _ _ _) (by rw [hown]; simpa using kk.k) ?_ ?_ ?_ hb
+          · rw [ownOf_small _ (by rw [upd_self]; exact hsmall)]; exact List.Sublist.refl _
+          · rw [kk.starts]
+          · rw [kk.starts]; exact j.keys
+      · obtain ⟨ids, hi, h⟩ := obind_ok h
+        obtain ⟨tmp, hr, h⟩ := obind_ok h
+        obtain ⟨q1, hf, h⟩ := obind_ok h
+        obtain ⟨⟨q2, ids1⟩, hw1, h⟩ := obind_ok h
+        obtain ⟨⟨q3, ids2⟩, hw2, h⟩ := obind_ok h
+        cases h
+        have kk := kk_freeMiniChainFrom hf
+        have k1 := keeps_chainWrite _ _ hw1
+        have k2 := keeps_chainWrite _ _ hw2
+        refine jj_step (b := hdl ids2) j (upd_other _ _ _) ?_ (ownOf_setStart_sublist _ _ _ _) ?_ ?_ hb
+        · rw [hown, cont_setStart, cont_of_sf k2.2, cont_of_sf k1.2]
+          have e1 : Keeps p q1 (cont p ++ []) (cont q1 ++ []) := by simpa using kk.k
+          have e2 : Keeps q1 q2 (cont q1 ++ []) (cont q1 ++ hdl ids1) := by simpa [hdl] using k1.1.frame (cont q1)
+          have e3 := k2.1.frame (cont q1)
+          exact ((e1.trans e2).trans e3).trans (Keeps.of_same (same_setStart q3 slot (ids2.head?.getD END)) _)
+        · rw [others_setStart, k2.2.2.2.2, k1.2.2.2.2, kk.starts]
+        · exact keys_setStart _ _ (by rw [k2.2.2.2.2, k1.2.2.2.2, kk.starts]; exact j.keys)
+    · rename_i hbig
+      obtain ⟨ids, hi, h⟩ := obind_ok h
+      split at h
+      · cases h
+      · obtain ⟨⟨q, ids'⟩, hw, h⟩ := obind_ok h
+        cases h
+        have k := keeps_chainWrite _ _ hw
+        have hhead : hdl ids = [startOf p slot] := chainIds_head hi hstart
+        have hne : ids ≠ [] := by intro he; subst he; simp [hdl] at hhead
+        have hhead' : hdl ids' = [startOf p slot] := by rw [hdl_of_prefix hne (chainWrite_prefix _ _ hw)]; exact hhead
+        have hown : ownOf p.starts L slot = [startOf p slot] := ownOf_reg (Nat.le_of_not_lt hbig) hstart
+        refine jj_step (b := [startOf p slot]) j (upd_other _ _ _) ?_ ?_ ?_ ?_ hb
+        · rw [hown, cont_of_sf k.2]
+          have := k.1.frame (cont p)
+          rw [hhead, hhead'] at this
+          exact this
+        · rw [k.2.2.2.2]
+          have := ownOf_sublist_hd1 p.starts (upd L slot (max (L slot) (off + buf.length))) slot
+          refine this.trans ?_
+          have hs' : ¬ startIn p.starts slot = END := hstart
+          unfold hd1; rw [if_neg hs']
+          exact List.Sublist.refl _
+        · rw [k.2.2.2.2]
+        · rw [k.2.2.2.2]; exact j.keys
+
+end CfbVerif.Phys
+
+namespace CfbVerif.Phys
+open CfbVerif.Raw
+
+theorem CUTOFF_pos : 0 < CUTOFF := by decide
+
+theorem jj_resize {p p' : P} {L : Nat → Nat} {slot newLen : Nat}
+    (h : resize p slot (L slot) newLen = .ok p') (j : JJ p L) (hb : p'.fat.size ≤ MAXREG + 1) :
+    JJ p' (upd L slot newLen) := by
+  unfold resize at h
+  dsimp only [bind, pure] at h
+  split at h
+  · rename_i hend
+    have hown : ownOf p.starts L slot = [] := ownOf_noStart L hend
+    split at h
+    · cases h
+    · split at h
+      · rename_i hsmall
+        obtain ⟨⟨q, ids⟩, hw, h⟩ := obind_ok h
+        cases h
+        have kk := kk_miniChainSetLen hw
+        refine jj_step (b := []) j (upd_other _ _ _) (by rw [hown]; exact keeps_kk_setStart kk _ _) ?_ ?_ ?_ hb
+        · rw [ownOf_small _ (by rw [upd_self]; exact hsmall)]; exact List.Sublist.refl _
+        · rw [others_setStart, kk.starts]
+        · exact keys_setStart _ _ (by rw [kk.starts]; exact j.keys)
+      · rename_i hbig
+        obtain ⟨⟨q, ids⟩, hw, h⟩ := obind_ok h
+        cases h
+        have hpos : 0 < newLen := by have := CUTOFF_pos; omega
+        have k := keeps_chainSetLen hpos hw
+        refine jj_step (b := hdl ids) j (upd_other _ _ _) ?_ (ownOf_setStart_sublist _ _ _ _) ?_ ?_ hb
+        · rw [hown, cont_setStart, cont_of_sf k.2]
+          have := (k.1.frame (cont p)).trans (Keeps.of_same (same_setStart q slot (ids.head?.getD END)) _)
+          simpa [hdl] using this
+        · rw [others_setStart, k.2.2.2.2]
+        · exact keys_setStart _ _ (by rw [k.2.2.2.2]; exact j.keys)
+  · rename_i hstart
+    split at h
+    · rename_i hsmallOld
+      have hown : ownOf p.starts L slot = [] := ownOf_small _ hsmallOld
+      split at h
+      · obtain ⟨q, hf, h⟩ := obind_ok h
+        cases h
+        have kk := kk_freeMiniChainFrom hf
+        refine jj_step (b := []) j (upd_other _ _ _) (by rw [hown]; exact keeps_kk_setStart kk _ _) ?_ ?_ ?_ hb
+        · rw [ownOf_noStart _ (startIn_setStart _ _ _)]; exact List.Sublist.refl _
+        · rw [others_setStart, kk.starts]
+        · exact keys_setStart _ _ (by rw [kk.starts]; exact j.keys)
+      · split at h
+        · rename_i hsmall
+          obtain ⟨ids, hi, h⟩ := obind_ok h
+          obtain ⟨⟨q, ids'⟩, hs, h⟩ := obind_ok h
+          have kk1 := kk_miniChainSetLen hs
+          have fin : ∀ {q2 : P}, KK p q2 → q2 = p' → JJ p' (upd L slot newLen) := by
+            intro q2 kk e
+            subst e
+            refine jj_step (b := []) j (upd_other _ _ _) (by rw [hown]; simpa using kk.k) ?_ ?_ ?_ hb
+            · rw [ownOf_small _ (by rw [upd_self]; exact hsmall)]; exact List.Sublist.refl _
+            · rw [kk.starts]
+            · rw [kk.starts]; exact j.keys
+          split at h
+          · split at h
+            · cases h
+            · obtain ⟨⟨q2, ids2⟩, hw, h⟩ := obind_ok h
+              cases h
+              exact fin (kk1.trans (kk_miniChainWrite _ hw)) rfl
+          · cases h; exact fin kk1 rfl
+        · rename_i hbig
+          obtain ⟨ids, hi, h⟩ := obind_ok h
+          obtain ⟨tmp, hr, h⟩ := obind_ok h
+          obtain ⟨q1, hf, h⟩ := obind_ok h
+          obtain ⟨⟨q2, ids1⟩, hw1, h⟩ := obind_ok h
+          obtain ⟨⟨q3, ids2⟩, hs, h⟩ := obind_ok h
+          cases h
+          have hpos : 0 < newLen := by have := CUTOFF_pos; omega
+          have kk := kk_freeMiniChainFrom hf
+          have k1 := keeps_chainWrite _ _ hw1
+          have k2 := keeps_chainSetLen hpos hs
+          refine jj_step (b := hdl ids2) j (upd_other _ _ _) ?_ (ownOf_setStart_sublist _ _ _ _) ?_ ?_ hb
+          · rw [hown, cont_setStart, cont_of_sf k2.2, cont_of_sf k1.2]
+            have e1 : Keeps p q1 (cont p ++ []) (cont q1 ++ []) := by simpa using kk.k
+            have e2 : Keeps q1 q2 (cont q1 ++ []) (cont q1 ++ hdl ids1) := by simpa [hdl] using k1.1.frame (cont q1)
+            have e3 := k2.1.frame (cont q1)
+            exact ((e1.trans e2).trans e3).trans (Keeps.of_same (same_setStart q3 slot (ids2.head?.getD END)) _)
+          · rw [others_setStart, k2.2.2.2.2, k1.2.2.2.2, kk.starts]
+          · exact keys_setStart _ _ (by rw [k2.2.2.2.2, k1.2.2.2.2, kk.starts]; exact j.keys)
+    · rename_i hbigOld
+      have hown : ownOf p.starts L slot = [startOf p slot] := ownOf_reg (Nat.le_of_not_lt hbigOld) hstart
+      have hhd : hd1 (startOf p slot) = [startOf p slot] := by unfold hd1; rw [if_neg hstart]
+      split at h
+      · obtain ⟨q, hf, h⟩ := obind_ok h
+        cases h
+        have k := keeps_freeChainFrom hf
+        have sf := sf_freeChain _ hf
+        refine jj_step (b := []) j (upd_other _ _ _) ?_ ?_ ?_ ?_ hb
+        · rw [hown, cont_setStart, cont_of_sf sf]
+          have := (k.frame (cont p)).trans (Keeps.of_same (same_setStart q slot END) _)
+          rw [hhd] at this
+          exact this
+        · rw [ownOf_noStart _ (startIn_setStart _ _ _)]; exact List.Sublist.refl _
+        · rw [others_setStart, sf.2.2.2]
+        · exact keys_setStart _ _ (by rw [sf.2.2.2]; exact j.keys)
+      · split at h
+        · rename_i hsmall
+          obtain ⟨ids, hi, h⟩ := obind_ok h
+          obtain ⟨tmp, hr, h⟩ := obind_ok h
+          obtain ⟨q1, hf, h⟩ := obind_ok h
+          obtain ⟨⟨q2, ids1⟩, hw, h⟩ := obind_ok h
+          cases h
+          have k := keeps_freeChainFrom hf
+          have sf := sf_freeChain _ hf
+          have kk := kk_miniChainWrite _ hw
+          refine jj_step (b := []) j (upd_other _ _ _) ?_ ?_ ?_ ?_ hb
+          · rw [hown, cont_setStart]
+            have e1 := k.frame (cont p)
+            rw [hhd, ← cont_of_sf sf] at e1
+            have e2 : Keeps q1 q2 (cont q1 ++ []) (cont q2 ++ []) := by simpa using kk.k
+            rw [← cont_of_sf sf]
+            exact (e1.trans e2).trans (Keeps.of_same (same_setStart q2 slot (ids1.head?.getD END)) _)
+          · rw [ownOf_small _ (by rw [upd_self]; exact hsmall)]; exact List.Sublist.refl _
+          · rw [others_setStart, kk.starts, sf.2.2.2]
+          · exact keys_setStart _ _ (by rw [kk.starts, sf.2.2.2]; exact j.keys)
+        · rename_i hbig
+          obtain ⟨ids, hi, h⟩ := obind_ok h
+          obtain ⟨⟨q, ids'⟩, hs, h⟩ := obind_ok h
+          have hpos : 0 < newLen := by have := CUTOFF_pos; omega
+          have k1 := keeps_chainSetLen hpos hs
+          have hhead : hdl ids = [startOf p slot] := chainIds_head hi hstart
+          have hne : ids ≠ [] := by intro he; subst he; simp [hdl] at hhead
+          have hhead' : hdl ids' = [startOf p slot] := by rw [hdl_of_prefix hne (chainSetLen_prefix hs)]; exact hhead
+          have hne' : ids' ≠ [] := by intro he; subst he; simp [hdl] at hhead'
+          have fin : ∀ {q2 : P}, Keeps p q2 (cont p ++ [startOf p slot]) (cont p ++ [startOf p slot]) → SF p q2 → q2 = p' →
+              JJ p' (upd L slot newLen) := by
+            intro q2 k sf e
+            subst e
+            refine jj_step (b := [startOf p slot]) j (upd_other _ _ _) ?_ ?_ ?_ ?_ hb
+            · rw [hown, cont_of_sf sf]; exact k
+            · rw [sf.2.2.2]
+              refine (ownOf_sublist_hd1 p.starts (upd L slot newLen) slot).trans ?_
+              have hs' : ¬ startIn p.starts slot = END := hstart
+              unfold hd1; rw [if_neg hs']
+              exact List.Sublist.refl _
+            · rw [sf.2.2.2]
+            · rw [sf.2.2.2]; exact j.keys
+          have e1 : Keeps p q (cont p ++ [startOf p slot]) (cont p ++ [startOf p slot]) := by
+            have := k1.1.frame (cont p)
+            rw [hhead, hhead'] at this
+            exact this
+          split at h
+          · split at h
+            · cases h
+            · obtain ⟨⟨q2, ids2⟩, hw, h⟩ := obind_ok h
+              cases h
+              have k2 := keeps_chainWrite _ _ hw
+              have hhead2 : hdl ids2 = [startOf p slot] := by rw [hdl_of_prefix hne' (chainWrite_prefix _ _ hw)]; exact hhead'
+              have e2 : Keeps q q2 (cont p ++ [startOf p slot]) (cont p ++ [startOf p slot]) := by
+                have := k2.1.frame (cont p)
+                rw [hhead', hhead2] at this
+                exact this
+              exact fin (e1.trans e2) (k1.2.trans k2.2) rfl
+          · cases h; exact fin e1 k1.2 rfl
+
+theorem others_dropStart (p : P) (s : Nat) : others (dropStart p s).starts s = others p.starts s := others_idem p.starts s
+
+theorem jj_freeStream {p p' : P} {L : Nat → Nat} {slot : Nat}
+    (h : freeStream p slot (L slot) = .ok p') (j : JJ p L) (hb : p'.fat.size ≤ MAXREG + 1) :
+    JJ p' (upd L slot 0) := by
+  unfold freeStream at h
+  dsimp only [bind, pure] at h
+  have hown' : ∀ st : List (Nat × Nat), (ownOf st (upd L slot 0) slot).Sublist [] := by
+    intro st
+    rw [ownOf_small _ (by rw [upd_self]; exact CUTOFF_pos)]; exact List.Sublist.refl _
+  split at h
+  · rename_i hsmall
+    obtain ⟨q, hf, h⟩ := obind_ok h
+    cases h
+    have kk := kk_freeMiniChainFrom hf
+    refine jj_step (b := []) j (upd_other _ _ _) ?_ (hown' _) ?_ ?_ hb
+    · rw [ownOf_small _ hsmall]
+      have : cont (dropStart q slot) = cont q := rfl
+      rw [this]
+      have e : Keeps p q (cont p ++ []) (cont q ++ []) := by simpa using kk.k
+      exact e.trans (Keeps.of_same (same_dropStart _ _) _)
+    · rw [others_dropStart, kk.starts]
+    · show ((others q.starts slot).map (·.1)).Nodup
+      rw [kk.starts]; exact (keys_others slot j.keys).1
+  · rename_i hbig
+    obtain ⟨q, hf, h⟩ := obind_ok h
+    cases h
+    have k := keeps_freeChainFrom hf
+    have sf := sf_freeChain _ hf
+    refine jj_step (b := []) j (upd_other _ _ _) ?_ (hown' _) ?_ ?_ hb
+    · have : cont (dropStart q slot) = cont p := by
+        show cont q = cont p
+        exact cont_of_sf sf
+      rw [this]
+      have e := (k.frame (cont p)).trans (Keeps.of_same (same_dropStart q slot) _)
+      have hown : ownOf p.starts L slot = hd1 (startOf p slot) := by
+        unfold ownOf hd1
+        have hc : CUTOFF ≤ L slot := Nat.le_of_not_lt hbig
+        by_cases he : startIn p.starts slot = END
+        · have he' : startOf p slot = END := he
+          simp [he, he']
+        · have he' : ¬ startOf p slot = END := he
+          simp [hc, he, he']
+          rfl
+      rw [hown]
+      exact e
+    · rw [others_dropStart, sf.2.2.2]
+    · show ((others q.starts slot).map (·.1)).Nodup
+      rw [sf.2.2.2]; exact (keys_others slot j.keys).1
+
+/-- operations that keep every head and touch no start field -/
+theorem jj_of_keeps_sf {p p' : P} {L : Nat → Nat} (k : ∀ a, Keeps p p' a a) (sf : SF p p') (j : JJ p L)
+    (hb : p'.fat.size ≤ MAXREG + 1) : JJ p' L := by
+  refine ⟨(k []).good.inv j.inv (small_of_bound hb), ?_, by rw [sf.2.2.2]; exact j.keys⟩
+  have : heads p' L = heads p L := by unfold heads; rw [cont_of_sf sf, sf.2.2.2]
+  rw [this]
+  simpa using (k (heads p L)).keep hb j.inv [] (by simpa using j.ns)
+
+theorem jj_ensureDirSlot {p p' : P} {L : Nat → Nat} {slot : Nat} (h : ensureDirSlot p slot = .ok p') (j : JJ p L)
+    (hb : p'.fat.size ≤ MAXREG + 1) : JJ p' L := by
+  unfold ensureDirSlot at h
+  split at h
+  · cases h; exact j
+  · split at h
+    · split at h
+      · rename_i q id he
+        cases h
+        have hs : SameAlloc q { q with dirLen := q.dirLen + 1 } := ⟨rfl, rfl, rfl, rfl⟩
+        have hf : SF q { q with dirLen := q.dirLen + 1 } := ⟨rfl, rfl, rfl, rfl⟩
+        exact jj_of_keeps_sf (fun a => (keeps_extendChain he a).trans (Keeps.of_same hs a)) ((sf_extendChain he).trans hf) j hb
+      · cases h
+      · cases h
+      · cases h
+    · cases h
+      have hs : SameAlloc p { p with dirLen := p.dirLen + 1 } := ⟨rfl, rfl, rfl, rfl⟩
+      have hf : SF p { p with dirLen := p.dirLen + 1 } := ⟨rfl, rfl, rfl, rfl⟩
+      exact jj_of_keeps_sf (fun a => Keeps.of_same hs a) hf j hb
+
+theorem jj_reopen {p p' : P} {L : Nat → Nat} (h : Phys.reopen p = .ok p') (j : JJ p L) : JJ p' L := by
+  have inv' := inv_reopen j.inv h
+  unfold Phys.reopen at h
+  obtain ⟨chain, hc, h⟩ := bind_ok h
+  cases h
+  exact ⟨inv', j.ns, j.keys⟩
+
+/-- registering a new, empty stream in a slot that has no chain -/
+theorem jj_create {p : P} {L : Nat → Nat} {slot : Nat} (hfree : startOf p slot = END) (j : JJ p L) :
+    JJ (setStart p slot END) (upd L slot 0) := by
+  have hb : (setStart p slot END).fat.size ≤ MAXREG + 1 := j.ns.bound
+  refine jj_step (b := []) j (upd_other _ _ _) ?_ ?_ (others_setStart _ _ _) (keys_setStart _ _ j.keys) hb
+  · rw [ownOf_noStart L hfree, cont_setStart]
+    exact Keeps.of_same (same_setStart _ _ _) _
+  · rw [ownOf_small _ (by rw [upd_self]; exact CUTOFF_pos)]; exact List.Sublist.refl _
+
+end CfbVerif.Phys
+
+/-! ## the store machine: every history of stream-level operations -/
+namespace CfbVerif.Phys
+open CfbVerif.Raw
+
+theorem jj_init (v4 : Bool) : JJ (Phys.create v4) (fun _ => 0) := by
+  refine ⟨inv_create v4, ?_, by simp [Phys.create]⟩
+  have hfat : (Phys.create v4).fat = #[FATSECT, END] := rfl
+  have hheads : heads (Phys.create v4) (fun _ => 0) = [1] := by
+    simp [heads, cont, regs, Phys.create, hd1]
+  rw [hheads, hfat]
+  have cell : ∀ i v : Nat, (#[FATSECT, END] : Array Nat)[i]? = some v → v = FATSECT ∨ v = END := by
+    intro i v h
+    rcases i with _ | _ | i
+    · left; simpa using h.symm
+    · right; simpa using h.symm
+    · simp at h
+  refine ⟨by decide, ?_, ?_, by simp, ?_, ?_⟩
+  · intro i j v hi _ hv
+    rcases cell i v hi with rfl | rfl
+    · exact absurd hv (Nat.not_le.mpr MAXREG_lt_FATSECT)
+    · exact absurd hv (Nat.not_le.mpr MAXREG_lt_END)
+  · intro i v hi hv
+    rcases cell i v hi with rfl | rfl
+    · exact absurd hv (Nat.not_le.mpr MAXREG_lt_FATSECT)
+    · exact absurd hv (Nat.not_le.mpr MAXREG_lt_END)
+  · intro h hh
+    simp only [List.mem_singleton] at hh
+    subst hh
+    exact ⟨END, by simp, END_ne_FREE⟩
+  · intro h hh i hi
+    simp only [List.mem_singleton] at hh
+    subst hh
+    rcases cell i 1 hi with he | he
+    · exact absurd he (by decide)
+    · exact absurd he (by decide)
+
+/-- the operations `physOf` composes, with the stream lengths carried along (`L`) -/
+inductive GOp
+  | ensure (slot : Nat)                      -- `allocate_dir_entry` reaches slot `slot`
+  | create (slot : Nat)                      -- a new, empty stream in `slot`
+  | write (slot off : Nat) (bs : Bytes)      -- `write_data_to_stream`
+  | resize (slot n : Nat)                    -- `resize_stream`
+  | free (slot : Nat)                        -- `remove_stream`
+  | reopen
+
+structure G where
+  p : P
+  L : Nat → Nat
+
+def gstep (g : G) : GOp → Outcome G
+  | .ensure s => (ensureDirSlot g.p s).bind (fun p' => .ok { g with p := p' })
+  | .create s => if startOf g.p s = END then .ok { p := setStart g.p s END, L := upd g.L s 0 } else .err .invalidInput
+  | .write s off bs => (writeData g.p s (g.L s) off bs).bind (fun r => .ok { p := r.1, L := upd g.L s r.2 })
+  | .resize s n => (Phys.resize g.p s (g.L s) n).bind (fun p' => .ok { p := p', L := upd g.L s n })
+  | .free s => (freeStream g.p s (g.L s)).bind (fun p' => .ok { p := p', L := upd g.L s 0 })
+  | .reopen => (Phys.reopen g.p).bind (fun p' => .ok { g with p := p' })
+
+/-- a failed operation leaves the state as it was (its partial effects are C13's subject) -/
+def grun (g : G) : List GOp → G
+  | [] => g
+  | op :: rest =>
+    match gstep g op with
+    | .ok g' => grun g' rest
+    | _ => grun g rest
+
+theorem good_gstep {g g' : G} {op : GOp} (h : gstep g op = .ok g') : Good g.p g'.p := by
+  cases op with
+  | ensure s => obtain ⟨q, hq, h⟩ := obind_ok h; cases h; exact good_ensureDirSlot hq
+  | create s =>
+    simp only [gstep] at h
+    split at h
+    · cases h; exact Good.of_same (same_setStart _ _ _)
+    · cases h
+  | write s off bs => obtain ⟨r, hq, h⟩ := obind_ok h; cases h; exact good_writeData hq
+  | resize s n => obtain ⟨q, hq, h⟩ := obind_ok h; cases h; exact good_resize hq
+  | free s => obtain ⟨q, hq, h⟩ := obind_ok h; cases h; exact good_freeStream hq
+  | reopen => obtain ⟨q, hq, h⟩ := obind_ok h; cases h; exact good_reopen hq
+
+theorem jj_gstep {g g' : G} {op : GOp} (h : gstep g op = .ok g') (j : JJ g.p g.L)
+    (hb : g'.p.fat.size ≤ MAXREG + 1) : JJ g'.p g'.L := by
+  cases op with
+  | ensure s => obtain ⟨q, hq, h⟩ := obind_ok h; cases h; exact jj_ensureDirSlot hq j hb
+  | create s =>
+    simp only [gstep] at h
+    split at h
+    · rename_i hfree; cases h; exact jj_create hfree j
+    · cases h
+  | write s off bs => obtain ⟨r, hq, h⟩ := obind_ok h; cases h; exact jj_writeData hq j hb
+  | resize s n => obtain ⟨q, hq, h⟩ := obind_ok h; cases h; exact jj_resize hq j hb
+  | free s => obtain ⟨q, hq, h⟩ := obind_ok h; cases h; exact jj_freeStream hq j hb
+  | reopen => obtain ⟨q, hq, h⟩ := obind_ok h; cases h; exact jj_reopen hq j
+
+theorem grun_mono (ops : List GOp) : ∀ g : G, g.p.fat.size ≤ (grun g ops).p.fat.size := by
+  induction ops with
+  | nil => intro g; exact Nat.le_refl _
+  | cons op rest ih =>
+    intro g
+    simp only [grun]
+    cases hs : gstep g op with
+    | ok g' => exact Nat.le_trans (good_gstep hs).mono (ih g')
+    | err k => exact ih g
+    | panic s => exact ih g
+    | hang s => exact ih g
+
+theorem jj_grun (ops : List GOp) : ∀ g : G, JJ g.p g.L → (grun g ops).p.fat.size ≤ MAXREG + 1 →
+    JJ (grun g ops).p (grun g ops).L := by
+  induction ops with
+  | nil => intro g j _; exact j
+  | cons op rest ih =>
+    intro g j hb
+    simp only [grun] at hb ⊢
+    cases hs : gstep g op with
+    | ok g' =>
+      simp only [hs] at hb ⊢
+      exact ih g' (jj_gstep hs j (Nat.le_trans (grun_mono rest g') hb)) hb
+    | err k => simp only [hs] at hb ⊢; exact ih g j hb
+    | panic s => simp only [hs] at hb ⊢; exact ih g j hb
+    | hang s => simp only [hs] at hb ⊢; exact ih g j hb
+
+/-- **no sector is ever shared**: after every history of stream-level operations on a fresh file
+(within the format's range of sector numbers) no two FAT cells point at the same sector, no cell
+points at a FREE sector, and the first sectors of the directory, the MiniFAT, the mini stream and
+of every stream of at least 4096 bytes are distinct, in use, and pointed at by nothing -/
+theorem noShare_reachable (v4 : Bool) (ops : List GOp) :
+    let g := grun { p := Phys.create v4, L := fun _ => 0 } ops
+    g.p.fat.size ≤ MAXREG + 1 → JJ g.p g.L :=
+  fun hb => jj_grun ops _ (jj_init v4) hb
+
+end CfbVerif.Phys
+
+/-! ## what `physOf` is made of -/
+namespace CfbVerif.Phys
+open CfbVerif.Raw
+
+/-- the length a stream has after a log of store operations -/
+def lenAfter : Nat → List StoreOp → Nat
+  | len, [] => len
+  | len, .write off bs :: rest => lenAfter (max len (off + bs.length)) rest
+  | _, .resize n :: rest => lenAfter n rest
+
+theorem upd_upd (L : Nat → Nat) (s a b : Nat) : upd (upd L s a) s b = upd L s b := by
+  funext t; simp only [upd]; split <;> rfl
+
+theorem upd_same (L : Nat → Nat) (s : Nat) : upd L s (L s) = L := by
+  funext t; simp only [upd]; split
+  · rename_i h; rw [h]
+  · rfl
+
+theorem writeData_len {p p' : P} {slot oldLen off n : Nat} {buf : Bytes}
+    (h : writeData p slot oldLen off buf = .ok (p', n)) : n = max oldLen (off + buf.length) := by
+  unfold writeData at h
+  dsimp only [bind, pure] at h
+  split at h
+  · split at h
+    · cases h
+    · split at h
+      · obtain ⟨⟨q, ids⟩, hw, h⟩ := obind_ok h; cases h; rfl
+      · obtain ⟨⟨q, ids⟩, hw, h⟩ := obind_ok h; cases h; rfl
+  · split at h
+    · split at h
+      · obtain ⟨ids, hi, h⟩ := obind_ok h
+        split at h
+        · cases h
+        · obtain ⟨⟨q, ids'⟩, hw, h⟩ := obind_ok h; cases h; rfl
+      · obtain ⟨ids, hi, h⟩ := obind_ok h
+        obtain ⟨tmp, hr, h⟩ := obind_ok h
+        obtain ⟨q1, hf, h⟩ := obind_ok h
+        obtain ⟨⟨q2, ids1⟩, hw1, h⟩ := obind_ok h
+        obtain ⟨⟨q3, ids2⟩, hw2, h⟩ := obind_ok h
+        cases h; rfl
+    · obtain ⟨ids, hi, h⟩ := obind_ok h
+      split at h
+      · cases h
+      · obtain ⟨⟨q, ids'⟩, hw, h⟩ := obind_ok h; cases h; rfl
+
+/-- a handle call's store operations, replayed on the allocation level from the right length -/
+theorem jj_applyLogPhys (slot : Nat) (log : List StoreOp) : ∀ {p p' : P} {L : Nat → Nat},
+    applyLogPhys p slot (L slot) log = .ok p' → JJ p L → p'.fat.size ≤ MAXREG + 1 →
+    JJ p' (upd L slot (lenAfter (L slot) log)) := by
+  induction log with
+  | nil =>
+    intro p p' L h j _
+    simp only [applyLogPhys] at h; cases h
+    simp only [lenAfter]; rw [upd_same]; exact j
+  | cons op rest ih =>
+    intro p p' L h j hb
+    cases op with
+    | write off bs =>
+      simp only [applyLogPhys] at h
+      split at h
+      · rename_i q len' hw
+        have hbq : q.fat.size ≤ MAXREG + 1 := Nat.le_trans (good_applyLogPhys _ _ h).mono hb
+        have j1 := jj_writeData hw j hbq
+        have hl := writeData_len hw
+        have h' : applyLogPhys q slot ((upd L slot len') slot) rest = .ok p' := by rw [upd_self]; exact h
+        have := ih h' j1 hb
+        rw [upd_upd, upd_self, hl] at this
+        simpa only [lenAfter] using this
+      · cases h
+      · cases h
+      · cases h
+    | resize n =>
+      simp only [applyLogPhys] at h
+      split at h
+      · rename_i q hr
+        have hbq : q.fat.size ≤ MAXREG + 1 := Nat.le_trans (good_applyLogPhys _ _ h).mono hb
+        have j1 := jj_resize hr j hbq
+        have h' : applyLogPhys q slot ((upd L slot n) slot) rest = .ok p' := by rw [upd_self]; exact h
+        have := ih h' j1 hb
+        rw [upd_upd, upd_self] at this
+        simpa only [lenAfter] using this
+      · cases h
+      · cases h
+      · cases h
+
+theorem jj_ensureSlots (slots : List Nat) : ∀ {p p' : P} {L : Nat → Nat}, ensureSlots p slots = .ok p' → JJ p L →
+    p'.fat.size ≤ MAXREG + 1 → JJ p' L := by
+  induction slots with
+  | nil => intro p p' L h j _; simp only [ensureSlots] at h; cases h; exact j
+  | cons s rest ih =>
+    intro p p' L h j hb
+    simp only [ensureSlots] at h
+    split at h
+    · rename_i q he
+      have hbq : q.fat.size ≤ MAXREG + 1 := Nat.le_trans (good_ensureSlots _ h).mono hb
+      exact ih h (jj_ensureDirSlot he j hbq) hb
+    · cases h
+    · cases h
+    · cases h
+
+end CfbVerif.Phys
+
+/-! ## what `NSH` means for chains: two heads never lead to the same sector -/
+namespace CfbVerif.Phys
+open CfbVerif.Raw
+
+/-- `Reach fat a x`: following FAT cells from `a` arrives at `x` -/
+inductive Reach (fat : Array Nat) (a : Nat) : Nat → Prop
+  | refl : Reach fat a a
+  | step {b c : Nat} : Reach fat a b → fat[b]? = some c → c ≤ MAXREG → Reach fat a c
+
+/-- **chains are pairwise disjoint**: a sector that can be reached from two heads makes them the
+same head -/
+theorem NSH.disjoint {fat : Array Nat} {hs : List Nat} (n : NSH fat hs) {h1 h2 x : Nat}
+    (m1 : h1 ∈ hs) (m2 : h2 ∈ hs) (r1 : Reach fat h1 x) (r2 : Reach fat h2 x) : h1 = h2 := by
+  induction r1 generalizing h2 with
+  | refl =>
+    cases r2 with
+    | refl => rfl
+    | step r2' hc _ => exact absurd hc (n.unp h1 m1 _)
+  | step r1' hc1 hreg ih =>
+    cases r2 with
+    | refl => exact absurd hc1 (n.unp _ m2 _)
+    | step r2' hc2 _ =>
+      have := n.inj _ _ _ hc1 hc2 hreg
+      subst this
+      exact ih m2 r2'
+
+/-- a chain never runs into free space -/
+theorem NSH.reach_used {fat : Array Nat} {hs : List Nat} (n : NSH fat hs) {h x : Nat}
+    (m : h ∈ hs) (r : Reach fat h x) : ∃ w, fat[x]? = some w ∧ w ≠ FREE := by
+  cases r with
+  | refl => exact n.used h m
+  | step r' hc hreg => exact n.nd _ _ hc hreg
 
 end CfbVerif.Phys
